@@ -64,6 +64,10 @@ impl<T: Show> Show for Vec<T> {
     fn show(&self) -> String { format!("[{}]", self.iter().map(|x| x.show()).collect::<Vec<_>>().join(",")) }
     fn addrs(&self, out: &mut Vec<usize>) { for x in self { x.addrs(out) } }
 }
+impl<A: Show> Show for (A,) {
+    fn show(&self) -> String { format!("({})", self.0.show()) }
+    fn addrs(&self, out: &mut Vec<usize>) { self.0.addrs(out); }
+}
 impl<A: Show, B: Show> Show for (A, B) {
     fn show(&self) -> String { format!("({},{})", self.0.show(), self.1.show()) }
     fn addrs(&self, out: &mut Vec<usize>) { self.0.addrs(out); self.1.addrs(out); }
